@@ -154,7 +154,7 @@ func runTime(c *hx.Ctx, r *hx.Rng, st *state) bool {
 		c.Count(fmt.Sprintf("time:scale:%d", sc))
 	}
 	nt := (mode >= 1 && mode <= 3) || hasExtreme(xs)
-	c.Case(op, nt)
+	c.Case(opKey(op), nt)
 	if perr != "" {
 		c.Violation(line, "time_encode_panic", perr+" values="+short(hexWords(i64u(xs))))
 		return nt
